@@ -33,6 +33,13 @@ package state
 //@   local todoBlk *xldgpb.InternalBlock
 //@   at Meta.UpdateNextIrreversibleBlockHeight assert irr_args_current: $0 == todoBlk.Height && $1 == t.meta.Meta.IrreversibleBlockHeight && $2 == t.meta.Meta.IrreversibleSlideWindow
 //@   at State.updateLatestBlockid assert irr_update_dominates_pointer: sel(irrUpdFor, ifacePtr($1)) == todoBlk.Height && bytesEq($0, todoBlk.Blockid)
+// C01: one batch per replayed block; its transactions are played in block order in
+// that batch (after verification), and the pointer moves to the block in the same batch.
+//@   local batch kvdb.Batch
+//@   at State.doTxInternal assert [C01] transactions_in_block_order_in_its_batch: 0 <= idx && idx < length && $0 == tx && $1 == batch
+//@   at State.payFee assert [C01] fee_of_this_block_in_its_batch: $0 == tx && $1 == batch && $2 == todoBlk
+//@   at State.updateLatestBlockid assert [C01] pointer_to_the_block_in_the_same_batch: bytesEq($0, todoBlk.Blockid) && $1 == batch && idx == length
+//@   loop 2 invariant [C01] played_prefix: 0 <= idx && idx <= length
 
 // A walk without the prune flag never undoes a block at or below the
 // irreversible height: every undo step of a block is guarded.
@@ -45,6 +52,12 @@ package state
 //@   at State.undoPayFee assert undo_guarded: ledgerPrune || undoBlk.Height > curIrreversibleBlockHeight
 //@   at State.updateLatestBlockid assert undo_guarded: ledgerPrune || undoBlk.Height > curIrreversibleBlockHeight
 //@   at Meta.UpdateNextIrreversibleBlockHeightForPrune assert prune_only: ledgerPrune
+// C01: one batch per undone block; every transaction of the block is undone in that
+// batch and the pointer moves, in the same batch, to the block's parent.
+//@   local batch kvdb.Batch
+//@   at State.undoTxInternal assert [C01] transactions_of_this_block_in_its_batch: 0 <= i && i < len(undoBlk.Transactions) && $0 == undoBlk.Transactions[i] && $1 == batch
+//@   at State.undoPayFee assert [C01] fee_of_this_block_in_its_batch: $0 == undoBlk.Transactions[i] && $1 == batch && $2 == undoBlk
+//@   at State.updateLatestBlockid assert [C01] pointer_to_the_parent_in_the_same_batch: bytesEq($0, undoBlk.PreHash) && $1 == batch
 
 // ---- C02: the reported total only moves for coinbase outputs, by the output's
 // amount, up on do and down on undo; cached balances move by the amount of the
@@ -57,11 +70,50 @@ package state
 //@   at UtxoVM.SubBalance assert spent_output_leaves_balance: $0 == txInput.FromAddr && sel(bigval, $1) == natOf(txInput.Amount)
 //@   at UtxoVM.AddBalance assert created_output_enters_balance: $0 == txOutput.ToAddr && sel(bigval, $1) == natOf(txOutput.Amount) && sel(bigval, $1) != 0
 //@   at UtxoVM.CheckInputEqualOutput assert checks_this_tx: $0 == tx
+// C01: what play writes for token outputs. inUKey / outUKey: table keys of the i-th
+// spent and the o-th created output; a created output counts if it is not the fee
+// placeholder and its amount is not zero.
+//@   uses utxoKeyInjective
+//@   uses utxoKeyHasTablePrefix
+//@   uses concatPrefixDistinct
+//@   uses concatFirstChar
+//@   ensures [C01] created_outputs_are_stored: result == nil ==> (forall o int :: 0 <= o && o < len(tx.TxOutputs) && countsOut(tx, o) ==> ubop(batch, outUKey(tx, o)) == 1 && ubval(batch, outUKey(tx, o)) == itemBytes(natOf(tx.TxOutputs[o].Amount), tx.TxOutputs[o].FrozenHeight))
+//@   ensures [C01] other_outputs_are_not_stored: result == nil ==> (forall o int :: 0 <= o && o < len(tx.TxOutputs) && !countsOut(tx, o) && old(ubop(batch, outUKey(tx, o))) != 1 ==> ubop(batch, outUKey(tx, o)) != 1)
+//@   ensures [C01] spent_outputs_are_removed: result == nil ==> (forall i int :: 0 <= i && i < len(tx.TxInputs) && (forall o int :: 0 <= o && o < len(tx.TxOutputs) ==> outUKey(tx, o) != inUKey(tx, i)) ==> ubop(batch, inUKey(tx, i)) == 2)
+//@   loop 1 invariant [C01] removed_so_far: 0 <= $i && $i <= len(tx.TxInputs) && (forall i int :: 0 <= i && i < $i ==> ubop(batch, inUKey(tx, i)) == 2)
+//@   loop 1 invariant [C01] nothing_stored_yet: (forall k string :: k[0] != 90 && old(ubop(batch, k)) != 1 ==> ubop(batch, k) != 1)
+//@   loop 2 invariant [C01] others_not_stored: (forall o int :: 0 <= o && o < len(tx.TxOutputs) && (!countsOut(tx, o) || o >= $i) && old(ubop(batch, outUKey(tx, o))) != 1 ==> ubop(batch, outUKey(tx, o)) != 1)
+//@   loop 2 invariant [C01] stored_so_far: 0 <= $i && $i <= len(tx.TxOutputs) && (forall o int :: 0 <= o && o < $i && countsOut(tx, o) ==> ubop(batch, outUKey(tx, o)) == 1 && ubval(batch, outUKey(tx, o)) == itemBytes(natOf(tx.TxOutputs[o].Amount), tx.TxOutputs[o].FrozenHeight))
+//@   loop 2 invariant [C01] spent_stay_removed: (forall i int :: 0 <= i && i < len(tx.TxInputs) && (forall o int :: 0 <= o && o < $i ==> outUKey(tx, o) != inUKey(tx, i)) ==> ubop(batch, inUKey(tx, i)) == 2)
+//@ macro inUKey(tx, i) = utxo.GenUtxoKeyWithPrefix(tx.TxInputs[i].FromAddr, tx.TxInputs[i].RefTxid, tx.TxInputs[i].RefOffset)
+//@ macro outUKey(tx, o) = utxo.GenUtxoKeyWithPrefix(tx.TxOutputs[o].ToAddr, tx.Txid, o)
+//@ macro countsOut(tx, o) = str(tx.TxOutputs[o].ToAddr) != FeePlaceholder && natOf(tx.TxOutputs[o].Amount) != 0
+//@ macro noDupInputs(tx) = (forall i int, j int :: 0 <= i && i < j && j < len(tx.TxInputs) ==> inUKey(tx, i) != inUKey(tx, j))
+//@ macro ubop(batch, k) = sel(sel(batchOp, ifacePtr(batch)), k)
+//@ macro ubval(batch, k) = sel(sel(batchVal, ifacePtr(batch)), k)
+
+// The frozen height an undone spend restores is the one of the creating output.
+//@ func State.frozenHeightOfSpentOutput
+//@   property C01
+//@   pure
+//@   let rt = t.xmodel.QueryTx(txInput.RefTxid)
+//@   ensures of_the_creating_output: t.xmodel.QueryTx#2(txInput.RefTxid) == nil && rt != nil && 0 <= txInput.RefOffset && txInput.RefOffset < len(rt.TxOutputs) ==> result == rt.TxOutputs[txInput.RefOffset].FrozenHeight
 
 //@ func State.undoTxInternal
 //@   property C02
 //@   local txInput *protos.TxInput
 //@   local txOutput *protos.TxOutput
+// C01: undo writes the inverse: every spent output is put back with the declared
+// amount (which play checked against the stored one) and the frozen height of its
+// creating output; every created output is removed.
+//@   uses utxoKeyInjective
+//@   uses utxoKeyHasTablePrefix
+//@   uses concatPrefixDistinct
+//@   uses concatFirstChar
+//@   ensures [C01] created_outputs_are_removed: result == nil ==> (forall o int :: 0 <= o && o < len(tx.TxOutputs) && countsOut(tx, o) ==> ubop(batch, outUKey(tx, o)) == 2)
+//@   ensures [C01] spent_outputs_are_put_back: result == nil && noDupInputs(tx) ==> (forall i int :: 0 <= i && i < len(tx.TxInputs) && (forall o int :: 0 <= o && o < len(tx.TxOutputs) ==> outUKey(tx, o) != inUKey(tx, i)) ==> ubop(batch, inUKey(tx, i)) == 1 && ubval(batch, inUKey(tx, i)) == itemBytes(natOf(tx.TxInputs[i].Amount), t.frozenHeightOfSpentOutput(tx.TxInputs[i])))
+//@   loop 1 invariant [C01] put_back_so_far: 0 <= $i && $i <= len(tx.TxInputs) && (noDupInputs(tx) ==> forall i int :: 0 <= i && i < $i ==> ubop(batch, inUKey(tx, i)) == 1 && ubval(batch, inUKey(tx, i)) == itemBytes(natOf(tx.TxInputs[i].Amount), t.frozenHeightOfSpentOutput(tx.TxInputs[i])))
+//@   loop 2 invariant [C01] removed_so_far: 0 <= $i && $i <= len(tx.TxOutputs) && (forall o int :: 0 <= o && o < $i && countsOut(tx, o) ==> ubop(batch, outUKey(tx, o)) == 2) && (noDupInputs(tx) ==> forall i int :: 0 <= i && i < len(tx.TxInputs) && (forall o int :: 0 <= o && o < $i ==> outUKey(tx, o) != inUKey(tx, i)) ==> ubop(batch, inUKey(tx, i)) == 1 && ubval(batch, inUKey(tx, i)) == itemBytes(natOf(tx.TxInputs[i].Amount), t.frozenHeightOfSpentOutput(tx.TxInputs[i])))
 //@   at UtxoVM.UpdateUtxoTotal assert total_only_for_coinbase: tx.Coinbase && !$2 && sel(bigval, $0) == natOf(txOutput.Amount) && $1 == batch
 //@   at UtxoVM.AddBalance assert restored_output_enters_balance: $0 == txInput.FromAddr && sel(bigval, $1) == natOf(txInput.Amount)
 //@   at UtxoVM.SubBalance assert removed_output_leaves_balance: $0 == txOutput.ToAddr && sel(bigval, $1) == natOf(txOutput.Amount) && sel(bigval, $1) != 0
